@@ -4,7 +4,7 @@ from core import Job
 from . import common as c
 
 
-FRAC_DEC = [("u8", 8, [8, 5], 4), ("u16", 16, [16, 9, 7], 5), ("u32", 32, [32, 17, 15], 6), ("u64", 64, [64, 33, 31], 6), ("u128", 128, [128, 65, 63], 6)]
+FRAC_DEC = [("u8", 8, [8, 5, 4], 4), ("u16", 16, [16, 9, 8, 7], 5), ("u32", 32, [32, 17, 16, 15], 6), ("u64", 64, [64, 33, 32, 31], 6), ("u128", 128, [128, 65, 64, 63], 6)]
 INT_DEC = [("u8", 3), ("u16", 5)]   # wider words: 10..39 dependent divisions by ten, no verdict in 8 min
 
 
